@@ -2,8 +2,8 @@ package c06
 
 import (
 	"bytes"
-	"database/sql"
 	"crypto/tls"
+	"database/sql"
 	"encoding/base64"
 	"encoding/json"
 	"errors"
@@ -1240,4 +1240,3 @@ func (ch *child) cleanupStale(p *probe) {
 		ch.rec.Observe("harness_removed_stale_entry", 1)
 	}
 }
-
